@@ -118,6 +118,16 @@ def run():
   # F220 repair: a key of the wrong type is a KeyError, not an assert
   pfn = common.find_func(lcls, PRIM)
   has_assert = any(isinstance(n, ast.Assert) for n in ast.walk(pfn))
+  # C01-F225 repair: `__setitem__` refuses an extended slice of the wrong size (ValueError) before it
+  # formalizes any value -- the model's `setslice` reports errors in that order
+  sfn = common.find_func(lcls, '__setitem__')
+  form_lines = [n.lineno for n in ast.walk(sfn) if isinstance(n, ast.Call) and
+                isinstance(n.func, ast.Attribute) and n.func.attr == '_formalized_value']
+  size_raises = [n.lineno for n in ast.walk(sfn) if isinstance(n, ast.If) and
+                 any(isinstance(x, ast.Name) and x.id == 'slice_size' for x in ast.walk(n.test)) and
+                 any(isinstance(b, ast.Raise) and isinstance(b.exc, ast.Call) and
+                     getattr(b.exc.func, 'id', None) == 'ValueError' for b in n.body)]
+  size_first = bool(form_lines) and bool(size_raises) and min(size_raises) < min(form_lines)
   raises_key = any(isinstance(n, ast.Raise) and isinstance(n.exc, ast.Call) and
                    getattr(n.exc.func, 'id', None) == 'KeyError' for n in ast.walk(pfn))
   dprim = facts_of(dcls, PRIM)
@@ -149,6 +159,8 @@ def run():
       'def frozenChildSealed : Bool := %s' % B(seals),
       '/-- The list write primitive rejects a non-integer key with KeyError (no `assert`). -/',
       'def listPrimBadKeyIsKeyError : Bool := %s' % B(raises_key and not has_assert),
+      '/-- `__setitem__(slice)`: the size of an extended slice is checked before any value is formalized. -/',
+      'def sliceSizeCheckedFirst : Bool := %s' % B(size_first),
       '/-- `Dict._set_item_without_permission_check` looks the field up and formalizes the value. -/',
       'def dictPrimFormalizes : Bool := %s' % B('_formalized_value' in dprim.self_calls and 'get_field' in dprim.attrs),
       'def dictFormalizeApplies : Bool := %s' % B('apply' in dform.attrs),
@@ -160,6 +172,7 @@ def run():
   ])
   sidecar = {'sources': {LIST_PY: common.sha(LIST_PY), DICT_PY: common.sha(DICT_PY), BASE_PY: common.sha(BASE_PY)},
              'frozen_child_sealed': seals, 'list_bad_key_keyerror': raises_key and not has_assert,
+             'slice_size_checked_first': size_first,
              'growers': growers, 'shrinkers': shrinkers, 'dict_writers': dict_writers}
   changed = common.write_gen('C03Tables', lean, sidecar)
   return {'changed': changed, 'sidecar': sidecar}
